@@ -4,6 +4,7 @@ compare the sets of outcomes (callback sequence of each actor, result sequence o
 quiescent leaves.  An outcome that only the unreduced exploration reaches means a footprint (dependency) is missing.
 usage: porcheck.py [tier] [max seconds per unreduced exploration] [program names...]"""
 import os
+import re
 import sys
 import time
 ROOT = os.path.dirname(os.path.dirname(os.path.abspath(__file__)))
@@ -29,8 +30,33 @@ def canon(tr):
     for e in tr:
         if e[0] == 'op_end':
             ops.setdefault(e[1], []).append((e[3], str(e[4])))
-    other = frozenset((e[0],) + tuple(map(str, e[1:3])) for e in tr if e[0] in ('userfut_run', 'task_done', 'task_cancelled', 'task_panicked'))
-    return (tuple(sorted((k, tuple(v)) for k, v in cb.items())), tuple(sorted((k, tuple(v)) for k, v in ops.items())), other)
+    # (labels such as havoc(stopped#3) carry a global running number: the order of independent callbacks of different
+    # actors is exactly what the reduction may commute, so the number is not part of the outcome)
+    other = frozenset((e[0],) + tuple(re.sub(r'#\d+', '#', str(x)) for x in e[1:3]) for e in tr if e[0] in ('userfut_run', 'task_done', 'task_cancelled', 'task_panicked'))
+    out = (tuple(sorted((k, tuple(v)) for k, v in cb.items())), tuple(sorted((k, tuple(v)) for k, v in ops.items())), other)
+    # instances / contexts / loop tasks are numbered in the global order of their creation: two schedules that differ only
+    # in which of two independent spawns came first are the same outcome up to that renaming -> canonical = the smallest
+    # rendering over all consistent renamings (instK, ctxK and loopK are renamed together)
+    ids = sorted(set(int(x) for x in re.findall(r'\binst(\d+)\b', repr(out))))
+    if len(ids) < 2 or len(ids) > 4:
+        return repr((out[0], out[1], sorted(out[2], key=str)))
+    import itertools
+
+    def ren(x, mp):
+        # instK and ctxK count from 0, the loop task of instance K is loop(K+1)
+        def f(m):
+            k = int(m.group(2)) - (1 if m.group(1) == 'loop' else 0)
+            return m.group(1) + '@' + str(mp.get(k, k))
+        return re.sub(r'\b(inst|ctx|loop)(\d+)\b', f, x)
+    best = None
+    for perm in itertools.permutations(ids):
+        mp = dict(zip(ids, perm))
+        cbs = tuple(sorted((ren(k, mp), tuple(v)) for k, v in cb.items()))
+        opp = tuple(sorted((k, tuple((a, ren(b, mp)) for a, b in v)) for k, v in ops.items()))
+        oth = sorted(tuple(ren(str(x), mp) for x in e) for e in out[2])
+        t2 = repr((cbs, opp, oth))
+        best = t2 if best is None or t2 < best else best
+    return best
 
 
 bad = 0
